@@ -23,7 +23,17 @@ Consume == i' = i + 1
 TInit == Init /\ i = 1
 
 TrStart    == IsEvent("Start")    /\ Start /\ Consume
-TrApi      == IsEvent("Api")      /\ phase = "run" /\ UNCHANGED vars /\ Consume   \* marker: an API call begins
+(* The history alphabet: the API calls the drivers make between Start and Finish.  An Api event marks the      *)
+(* beginning of a call; the allocator events up to the next marker belong to it.  The ledger contract is the    *)
+(* same under every call, so the marker changes nothing, but a trace with a call outside the alphabet is not a  *)
+(* history this specification speaks about.  "MIR_interp" followed by "call_main" under a lazy interface is     *)
+(* tiered execution (interpret first, generate on the first call through the address);                          *)
+(* "MIR_change_module_ctx" moves a module between two contexts that share one ledger.                           *)
+ApiCalls == {"MIR_init2", "build_api", "MIR_scan_string", "MIR_read", "c2mir_init", "c2mir_compile",
+             "MIR_output", "MIR_write", "MIR_load_module", "MIR_load_external", "MIR_change_module_ctx",
+             "MIR_gen_init", "MIR_link", "MIR_gen", "MIR_interp", "call_main", "MIR_gen_finish",
+             "c2mir_finish", "MIR_finish", "VARR", "HTAB"}
+TrApi      == IsEvent("Api")      /\ Ev.f \in ApiCalls /\ phase = "run" /\ UNCHANGED vars /\ Consume
 TrMalloc   == IsEvent("Malloc")   /\ Malloc(Ev.id, Ev.size) /\ Consume
 TrCalloc   == IsEvent("Calloc")   /\ Calloc(Ev.id, Ev.num, Ev.esz) /\ Consume
 TrRealloc  == IsEvent("Realloc")  /\ Realloc(Ev.old, Ev.osz, Ev.nsz, Ev.id) /\ Consume
